@@ -274,7 +274,7 @@ SpaceX ==
               /\ (s.grid = "free" => ~s.lT)}
     [] Family = "C14" ->
          {s \in [rhs : {"R2", "R3", "R6", "RC"}, meth : {"MS", "SS", "DC"}, intg : {"rk", "radau2"}, N : 1..2, M : 1..2, grid : {"uni", "geo"},
-                 hz : {"num", "fb"}, seed : {Seed}, cons : {<<"k1", "k3", "k4">>, <<"k7", "k5">>, <<"kW", "kX">>}, obj : {<<"o1", "o3">>, <<"o6">>}, lT : {FALSE},
+                 hz : {"num", "fb"}, seed : {Seed}, cons : {<<"k1", "k3", "k4">>, <<"k7", "k5">>, <<"kW", "kX">>, <<"kT0", "k1", "k8">>}, obj : {<<"o1", "o3">>, <<"o6">>}, lT : {FALSE},
                  gs : {"none", "mix", "twice"}, scl : {"s1", "s2"}, when : {"before"}] :
               /\ (s.meth = "DC" <=> s.intg = "radau2") /\ (s.rhs = "R6" => s.meth = "DC")}
     [] Family = "C11" ->
